@@ -133,3 +133,64 @@ def stale_selectors(module, fn):
                     found.append((d, w, ust, name, tab, col))
                     break
     return found, examined
+
+
+def _is_empty_container(e):
+    if isinstance(e, (ast.List, ast.Set, ast.Tuple)) and not e.elts:
+        return True
+    if isinstance(e, ast.Dict) and not e.keys:
+        return True
+    if isinstance(e, ast.Call) and not e.args and not e.keywords and isinstance(e.func, ast.Name) and e.func.id in ("list", "set", "dict", "tuple"):
+        return True
+    return False
+
+
+def lost_accumulation(module, fn):
+    """A result that is started as an empty container before a loop, *overwritten* (not extended) on every iteration from something that
+    depends on the loop variable, and used after the loop: only the last iteration contributes.
+    -> ([(init stmt, overwriting stmt, loop, name)], number of candidate accumulators examined)"""
+    found, examined = [], 0
+    parents = module.parents
+
+    def block_of(st):
+        p = parents.get(st)
+        for fld in ("body", "orelse", "finalbody"):
+            b = getattr(p, fld, None)
+            if isinstance(b, list) and any(x is st for x in b):
+                return b
+        return None
+
+    for loop in [n for n in ast.walk(fn) if isinstance(n, ast.For)]:
+        blk = block_of(loop)
+        if blk is None:
+            continue
+        k = next(i for i, x in enumerate(blk) if x is loop)
+        inits = {}
+        for st in blk[:k]:
+            if isinstance(st, ast.Assign) and len(st.targets) == 1 and isinstance(st.targets[0], ast.Name) and _is_empty_container(st.value):
+                inits[st.targets[0].id] = st
+            elif isinstance(st, ast.Assign):
+                for t in st.targets:
+                    if isinstance(t, ast.Name):
+                        inits.pop(t.id, None)
+        if not inits:
+            continue
+        loop_vars = {x.id for x in ast.walk(loop.target) if isinstance(x, ast.Name)}
+        has_break = any(isinstance(x, ast.Break) for x in ast.walk(loop))
+        for name, init in inits.items():
+            examined += 1
+            body_nodes = [x for st in loop.body for x in ast.walk(st)]
+            stores = [st for st in loop.body if isinstance(st, ast.Assign) and any(isinstance(t, ast.Name) and t.id == name for t in st.targets)]
+            if len(stores) != 1 or has_break:
+                continue
+            st = stores[0]
+            rhs_names = {x.id for x in ast.walk(st.value) if isinstance(x, ast.Name)}
+            if name in rhs_names or not (rhs_names & loop_vars):
+                continue  # accumulates (x = x + ..) or does not depend on the iteration
+            other_uses = [x for x in body_nodes if isinstance(x, ast.Name) and x.id == name and not any(x is t for t in st.targets)]
+            if other_uses:
+                continue  # used / extended inside the loop: a per-iteration temporary
+            after = [x for s2 in blk[k + 1:] for x in ast.walk(s2) if isinstance(x, ast.Name) and x.id == name and isinstance(x.ctx, ast.Load)]
+            if after:
+                found.append((init, st, loop, name))
+    return found, examined
